@@ -112,6 +112,9 @@ void lingerZero(QSslSocket *s)
     }
 }
 
+// hang detector only (the machine may be heavily loaded); exceeding it is a harness failure, exit 2
+constexpr int HangMs = 20000;
+
 struct Runner {
     Ctx &ctx;
     LoopPeer peer;
@@ -165,7 +168,7 @@ struct Runner {
         xs->connectToHost(ServerAddress { ServerAddress::Tcp, "127.0.0.1", peer.port() });
         bool up = qxvSpin([&] {
             return peer.connections > c0 && peer.isOpen() && sock->state() == QAbstractSocket::ConnectedState && started >= 1;
-        });
+        }, HangMs);
         QJsonArray jc;
         for (int p : cuts) {
             jc.append(p);
@@ -184,7 +187,7 @@ struct Runner {
             rr = 0;
             peer.write(def.bytes.mid(from, to - from));
             written += to - from;
-            ok = qxvSpin([&] { return consumed >= written && sock->bytesAvailable() == 0; });
+            ok = qxvSpin([&] { return consumed >= written && sock->bytesAvailable() == 0; }, HangMs);
             QJsonArray dl;
             for (const auto &g : got) {
                 QJsonObject o { { "k", g.k }, { "d", g.d } };
